@@ -54,6 +54,8 @@ inductive Op where
   | reset (k : Int)
   /-- a draw made directly on `dist.rng` (networks) -/
   | direct (size : Nat)
+  /-- `dist.set(...)`: changes parameters only — no effect on the stream state or the flags -/
+  | setPars
   deriving DecidableEq, Repr
 
 /-- Python's `a or b or 0` on optional / zero-is-falsy integers. -/
@@ -115,6 +117,7 @@ def step (d : Dist) : Op → Dist × Res
       if ¬ d.initialized then (d, .error .other)
       else if size = 0 then (d, .ok none)
       else ({ d with pos := ⟨d.pos.ind, d.pos.draws ++ [size]⟩ }, .ok (some d.pos))
+  | .setPars => (d, .ok none)
 
 /-- The draw start logged by a call, if it drew. -/
 def Res.start : Res → Option Pos
@@ -138,6 +141,7 @@ def Op.loopOp : Op → Bool
   | .jumpDt _ force => !force
   | .rvs _ rs => !rs
   | .direct _ => true
+  | .setPars => true
   | .init .. => false
   | .reset _ => false
 
